@@ -144,6 +144,41 @@ CHECKS = {
         note='Trusted: TLC, the mock convergence layers / mock agent and the barrier protocol of the driver (DESIGN.md appendix A), in-package reads of the store and of the spray counters. Bounds: 2-4 bundles, 2-4 peers, history length 4-6 exhaustively per algorithm, 10-20 random.',
         technique="TLA+ spec of the processing pipeline + TLC exhaustive check + replay of TLC behaviours on a real routing.Core with mock CLAs",
     ),
+    "C04": dict(
+        category='exploration',
+        text='Model-generated exploration, declared as such: Robust.tla walks the specification-level encodings (bundles with all block types, status reports, announcements, WebSocket-agent messages), substitutes boundary values at every CBOR length/count position, the harness adds truncations and the fixed-offset TCPCL fields, MTCP frame heads, xz streams, endpoint strings and REST bodies; every decoder call is guarded (no panic, returns within 5 s, allocation <= 4 MiB + 256 x input length; process crashes are attributed by re-running the in-flight input alone). Session negotiation: peer-declared segment MRU over the same boundary values on NextSegment and TransferManager.Send. A TLA+ model does not decide memory safety; arbitrary 64 KiB byte strings and coverage-guided mutation are not covered.',
+        design_ref='DESIGN.md section 6 C04, section 7',
+        note="Trusted: harness guard (runtime.MemStats.TotalAlloc, RLIMIT_AS 6 GiB). 48 MiB slack for the xz decoder's dictionary.",
+        technique='TLA+ wire-format model as input generator (length/count positions found by a CBOR walker in TLA+), guarded execution of the real decoders',
+    ),
+    "C07": dict(
+        category='model_checking',
+        text='Agents.tla (REST clients with mailboxes, WebSocket clients, ping agent, plain agent behind one mux) is model-checked; one behaviour per edge of the reduced graph plus random deep ones are replayed on a real MuxAgent with a real RestAgent over HTTP and a real WebSocketAgent with connector clients, comparing mailboxes, receptions, pongs, fetch results and the accepted/refused verdict after every operation; deliver/fetch on one mailbox are forced to interleave in both orders through the verif yield points and judged by Agents!RaceProblems.',
+        design_ref='DESIGN.md section 6 C07',
+        note='Trusted: TLC, barrier protocol (4 rounds of a recipient-less message), hand-over replicated from AgentManager.Deliver. Non-forwarding and report-only-on-success are covered by C05/C15 at Core level.',
+        technique='TLA+ spec + TLC + replay on real agents; forced interleavings via yield-point hooks',
+    ),
+    "C17": dict(
+        category='model_checking',
+        text='WireAux.tla / Uri.tla enumerate the value space of every auxiliary format at the boundaries (all 256 values of each code field, lengths 0..65535 as run-length terms) with the encoding the specification gives; each value is built with the real constructors, encoded, compared (oracle for RFC-fixed layouts, diagnostic otherwise), decoded from a continuing stream (consumed length), concatenations read back; invalid codes through the encoder must be rejected; URIs judged by the TLA+ grammar, accepted ones must print back identically.',
+        design_ref='DESIGN.md section 6 C17',
+        note="Trusted: TLC, constructors used by the harness. Not covered: arbitrary accepted byte strings (only the specification's encodings).",
+        technique='TLA+ wire-format specification evaluated by TLC as generator and independent encoder; round-trip replay on the real codecs',
+    ),
+    "C19": dict(
+        category='model_checking',
+        text='Gate: Core.tla with Algo = prophet and the Vector action (peer advertises one of four levels for a destination), replayed on a real Core: which peers receive the data bundle. Numeric part: random event sequences (encounter, ageing, received vectors with constants and values from [0,1] incl. 0, 1, denormals) on a real Prophet; the exact float64 bit patterns before/after every step are judged by Prophet.tla (range, monotonicity). Concurrency clause judged deterministically by the snapshot rule (vector of a handed-over bundle must not change with the table).',
+        design_ref='DESIGN.md section 6 C19',
+        note='Trusted: TLC, limb encoding of float order. IEEE rounding only for sampled sequences.',
+        technique='TLA+ spec + replay (gate); TLC-judged records with exact float order keys (numeric); snapshot test (aliasing)',
+    ),
+    "C20": dict(
+        category='model_checking',
+        text='Dtlsr.tla computes, by Bellman-Ford in TLA+, the admissible next hops for every destination of every link-state graph over this node + 2 senders + 1 leaf with each link absent/live/lost-recently/lost-long-ago (exhaustive), and the result of every arrival order of <=3 updates; the real DTLSR computes its table for each graph (own links via ReportPeerAppeared, foreign data as real DTLSRBlock bundles) and every entry is compared. Unicast rule and release: Core.tla/dtlsr behaviours with Learn and Recompute replayed.',
+        design_ref='DESIGN.md section 6 C20',
+        note='Trusted: TLC, loss times written in-package (hours apart). Graphs with up to 8 nodes are not enumerated.',
+        technique='TLA+ reference computation enumerated by TLC, compared with the real routing table; Core.tla replay for forwarding',
+    ),
 }
 
 NOT_YET = "machinery for this property is not built yet in this revision (planned in DESIGN.md section 6)"
@@ -196,7 +231,7 @@ def main():
 
 
 NA = {}
-HOOK_COMMITS = ["ba2cc1f", "672bb94", "8f9e00d"]
+HOOK_COMMITS = ["ba2cc1f", "672bb94", "8f9e00d", "20b28f3"]
 
 if __name__ == "__main__":
     main()
